@@ -242,9 +242,24 @@ func TestC15(t *testing.T) {
 			c.Vars = append(c.Vars, varBinding{Local: "z", T: "nil"})
 		}
 		g := &xast.G{T: t, Env: xast.GenEnv{ElemNames: []string{"a", "b", "r", "child", "a-b"}, AttrNames: []string{"id", "k", "lang"}, Prefixes: []string{"x", "p"}, PITargets: []string{"t"},
-			NumVars: []string{"n0", "n1"}, StrVars: []string{"s0", "s1"}, BoolVars: []string{"t", "f"}, NodeVars: []string{"v"}}}
-		src := rapid.IntRange(0, 9).Draw(t, "source")
+			NumVars: []string{"n0", "n1"}, StrVars: []string{"s0", "s1", "s2"}, BoolVars: []string{"t", "f"}, NodeVars: []string{"v"}}}
+		// a string variable holding arbitrary bytes (callers can bind any Go string, and
+		// ReadHtml passes invalid bytes of the source through)
+		bytePool := []string{"a\xff", "\xff", "ab\xc3", "\xf0\x9f", "é\xa0", "\xed\xa0\x80x", "x\x80", "\xc3\xa9\xc3", "12\xfe", "\xff\xff\xff", "𝄞\xf0"}
+		s2 := bytePool[rapid.IntRange(0, len(bytePool)-1).Draw(t, "s2Idx")]
+		if rapid.IntRange(0, 2).Draw(t, "s2Raw") == 0 {
+			s2 = string(rapid.SliceOfN(rapid.Byte(), 0, 6).Draw(t, "s2"))
+		}
+		c.Vars = append(c.Vars, varBinding{Local: "s2", T: "str", Str: s2})
+		src := rapid.IntRange(0, 10).Draw(t, "source")
 		switch {
+		case src == 10:
+			// every string function over the byte string, with boundary positions
+			tmpl := []string{"substring($s2, $n1, $n0)", "substring($s2, $n1)", "substring($s2, 1, $n1)", "substring($s2, $n1, 1)", "translate($s2, $s0, $s1)", "translate($s0, $s2, $s1)", "translate($s1, $s0, $s2)",
+				"string-length($s2)", "normalize-space($s2)", "substring-before($s2, $s1)", "substring-after($s2, $s1)", "substring-before($s1, $s2)", "substring-after($s1, $s2)", "contains($s2, $s1)",
+				"starts-with($s2, $s1)", "concat($s2, $s1, $s2)", "number($s2)", "boolean($s2)", "$s2 = $s1", "$s2 < $n0", "//*[. = $s2]", "string($s2)", "lang($s2)", "id($s2)"}
+			c.Expr, c.Typed = tmpl[rapid.IntRange(0, len(tmpl)-1).Draw(t, "tmpl")], true
+			st.Class("source=string-function-over-bytes")
 		case src <= 3:
 			e := g.Any(3)
 			c.Expr, c.Typed = xast.Render(e, xast.RapidChooser{T: t}, drawStyle(t)), true
@@ -321,8 +336,7 @@ func TestC15(t *testing.T) {
 	})
 	// arbitrary Unmarshal targets: an error, never a panic (the oracle is C19's)
 	runProp(t, "unmarshal-targets", 4500, 50000, func(t *rapid.T) {
-		kinds := []string{"nil", "non-pointer struct", "nil pointer", "pointer to nil pointer", "map", "array", "chan", "func", "2-D slice", "unexported tagged field", "interface field", "map field", "array field", "int", "string",
-			"pointer to nil slice pointer", "pointer to pointer to nil struct pointer", "pointer to nil pointer to slice of structs"}
+		kinds := c19BadKinds
 		c := &c19BadCase{Events: xmodel.Gen(t, c19Doc()), Target: kinds[rapid.IntRange(0, len(kinds)-1).Draw(t, "kind")],
 			Select: pick(t, "select", []string{"/*", "//a", "/nosuch", "//*", "1", "'s'", "true()", "//@*", "//text()"})}
 		st.Class("unmarshal " + c.Target)
